@@ -41,7 +41,7 @@ def gen_cb(rng: Any, ids: list[int], depth: int, allow_service: bool, p_raise: f
     routes = ["direct", "direct", "shortcut", "resource", "ctxteardown"] + (["service"] if allow_service and depth == 0 else [])
     route = rng.choice(routes)
     kind = rng.choice(["sync", "async", "async", "sync_awaitable"])
-    form = rng.choice(["function", "function", "function", "partial", "object"])  # how the callable is given
+    form = rng.choice(["function", "function", "function", "partial", "object", "unhashable_object"])  # how the callable is given
     if route == "ctxteardown":
         kind = "async"
     cb: dict[str, Any] = {"id": cid, "route": route, "kind": kind, "pass_exception": False, "steps": [], "raises": None, "children": [], "form": form}
@@ -260,22 +260,22 @@ class Run:
             import functools
 
             probe = functools.partial(probe)
-        elif form == "object":
+        elif form in ("object", "unhashable_object"):
             inner = probe
+            # "unhashable": a callable object with __eq__ but no __hash__ (what a plain @dataclass with __call__ is)
+            extra: dict[str, Any] = {"__eq__": lambda s, o: s is o, "__hash__": None} if form == "unhashable_object" else {}
             if cb["kind"] == "async":
 
-                class AsyncCallableObject:
-                    async def __call__(self, *a: Any) -> Any:
-                        return await inner(*a)
+                async def acall(self: Any, *a: Any) -> Any:
+                    return await inner(*a)
 
-                probe = AsyncCallableObject()
+                probe = type("AsyncCallableObject", (), {"__call__": acall, **extra})()
             else:
 
-                class CallableObject:
-                    def __call__(self, *a: Any) -> Any:
-                        return inner(*a)
+                def scall(self: Any, *a: Any) -> Any:
+                    return inner(*a)
 
-                probe = CallableObject()
+                probe = type("CallableObject", (), {"__call__": scall, **extra})()
         try:
             if route == "direct":
                 self.ctx.add_teardown_callback(probe, cb["pass_exception"])
@@ -686,7 +686,9 @@ def features(run: Run) -> dict[str, int]:
         inc(f"route_{r}")
     for cid in order:
         if byid[cid].get("form", "function") != "function" and byid[cid]["route"] in ("direct", "shortcut", "resource"):
-            inc(f"callback_form_{byid[cid]['form']}")
+            inc(f"callback_form_{byid[cid]['form'].replace('unhashable_', '')}")
+            if byid[cid]["form"] == "unhashable_object":
+                inc("callback_form_unhashable_object")
     if any(byid[cid]["route"] == "resource" and byid[cid].get("ntypes", 0) > 1 for cid in order):
         inc("resource_route_multi_type")
     if run.other_ctx_calls:
